@@ -85,12 +85,19 @@ def msg_kind(msg):
 
 
 def finding_key(case, f):
-    """class of a violation = (extractor, status, normalised message kind) -> the key used in known_findings.txt.
-    The panic site is NOT part of the class: a corrupt BoltDB faults wherever the mmap is touched first."""
+    """class predicate of a violation -> the key used in known_findings.txt:
+         panic / fatal : (extractor, failure kind, normalised message kind)
+         hang / oom    : (extractor, failure kind, decoder library the extractor called into = outermost third-party frame)
+    so a NEW crash of the same extractor with another signature (another message kind, another library) is still a VIOLATION.
+    The exact panic site is NOT part of the class: a corrupt BoltDB faults wherever the mmap is touched first."""
     ext = (case.split(' ') + ['?', '?'])[1]
-    parts = [ext.replace('/', '-'), f.get('st', '?')]
-    if f.get('st') in ('panic', 'fatal'):
+    st = f.get('st', '?')
+    parts = [ext.replace('/', '-'), st]
+    if st in ('panic', 'fatal'):
         parts.append(msg_kind(_unhex(f.get('msg'))))
+    elif st in ('hang', 'oom'):
+        lib_ = _unhex(f.get('lib'))
+        parts.append(_slug(lib_.split('/')[-1]) if lib_ else 'unknown-site')
     return 'C02/' + '-'.join(parts)
 
 
@@ -102,6 +109,8 @@ def describe(case, f):
         s += ' at ' + _unhex(f.get('at'))
     if f.get('via') and f.get('via') != f.get('at'):
         s += ' (via ' + _unhex(f.get('via')).split('/')[-1] + ')'
+    if f.get('lib'):
+        s += ' [decoder ' + _unhex(f.get('lib')) + ']'
     if f.get('msg'):
         s += ': ' + _unhex(f.get('msg'))
     return s
